@@ -272,7 +272,8 @@ func c20Compare(fams []*dto.MetricFamily, model map[c20Key]*c20Agg) error {
 var (
 	c20Methods = []string{"GET", "POST", "PUT", "DELETE"}
 	c20URLs    = []string{"http://a.test/", "http://a.test/x?y=1", "https://b.test:8443/é", "http://c.test/%20", "http://a.test/i/2", "http://a.test/i/22", "http://a.test/i/220", "http://a.test/i/2200"}
-	c20Errors  = []string{"500 Internal Server Error", "404 Not Found", "dial tcp: connection refused", "context deadline exceeded", "EOF", "bad: \"quoted\"\nline", "é漢"}
+	c20LongErr = "Get \"http://a.test/search?q=" + strings.Repeat("0123456789", 30) + "\": dial tcp 10.0.0.1:80: connect: connection refused"
+	c20Errors  = []string{c20LongErr + " (attempt 1)", c20LongErr + " (attempt 2)", strings.Repeat("e", 255), strings.Repeat("e", 256), strings.Repeat("e", 257), strings.Repeat("\u00e9", 200), "500 Internal Server Error", "404 Not Found", "dial tcp: connection refused", "context deadline exceeded", "EOF", "bad: \"quoted\"\nline", "é漢"}
 )
 
 func TestC20Prom(t *testing.T) {
@@ -377,6 +378,27 @@ func TestC20PromLong(t *testing.T) {
 		vh.Case("C20.prom", fmt.Sprintf("long-%d-%d-%d", n, seed, c.Goroutines), true, "long")
 		if err := runC20(c); err != nil {
 			vh.Fail(t, "C20", "C20.prom", c, err)
+		}
+	})
+}
+
+// a label set that is observed rarely - once at the start and twice at the end of a long run - while hundreds of
+// thousands of results go to the others: its series still sum over all of its results
+func TestC20RareLabelSet(t *testing.T) {
+	vh.Check(t, 1, 4, func(t *rapid.T) {
+		n := rapid.SampledFrom([]int{200000, 300000}).Draw(t, "n")
+		c := c20Case{Goroutines: 1}
+		rare := c20Res{Method: "PUT", URL: "http://rare.test/", Code: 503, Err: "503 Service Unavailable", In: 7, Out: 11, Latency: 3e6}
+		for i := 0; i < n; i++ {
+			if i == 0 || i == n-2 || i == n-1 {
+				c.Results = append(c.Results, rare)
+				continue
+			}
+			c.Results = append(c.Results, c20Res{Method: "GET", URL: c20URLs[i%3], Code: 200, In: uint64(i % 100), Out: 1, Latency: int64(i%1000) * 1000})
+		}
+		vh.Case("C20.prom", fmt.Sprintf("rare-%d", n), true, "rare-label-set")
+		if err := runC20(c); err != nil {
+			vh.Fail(t, "C20", "C20.prom", map[string]any{"n": n}, fmt.Errorf("%d results, three of them (the first and the last two) on a label set of their own: %v", n, err))
 		}
 	})
 }
